@@ -24,6 +24,7 @@ func checkC11(c *Ctx) {
 	c.Rule("C11/R5", "every p-value the test can return lies in [0,1] by construction (interval evaluation with CDF values in [0,1] and min(x,1-x) <= 1/2)")
 	c.Rule("C11/R7", "exact distribution code: every integer quotient in the tie-aware counting code has a dividend tested non-negative (truncating division is the floor only then); the untied mass function reads p(k)[k] for k = floor(U) or its mirror image n1n2 - floor(U)")
 	c.Rule("C11/R8", "binomial coefficients are exact where they are integers: the int64 product in mathChoose is guarded by n <= 20; C(n,k) is 0 outside 0 <= k <= n and 1 at k = 0 and k = n (constant evaluation of eleven boundary arguments)")
+	c.Rule("C11/R9", "exact-distribution code hygiene: no min/max over one and the same operand (a size normalisation that forgets one of the two sizes), and no recurrence over a table of integers (arrangement counts exceed 2^64 well inside the exact limits; the tables hold float64 probabilities or counts)")
 	c.Rule("C11/R6", "the legacy wrappers return every test error (converted) with p = -1 and the test's own P otherwise")
 
 	p := mustLoad(c, loadOpts{}, "./internal/stats", "./benchstat")
@@ -39,6 +40,7 @@ func checkC11(c *Ctx) {
 	c11Ties(c, p, fn)
 	c11Wrappers(c, p)
 	c11Dist(c, p)
+	c11Hygiene(c, p)
 }
 
 func c11Guards(c *Ctx, p *Prog, fn *ssa.Function) {
@@ -1209,4 +1211,120 @@ func stripConvInt(v ssa.Value) ssa.Value {
 		}
 		return v
 	}
+}
+
+// c11Hygiene (C11/R9).
+func c11Hygiene(c *Ctx, p *Prog) {
+	const R = "C11/R9"
+	var fns []*ssa.Function
+	for _, fn := range p.Funcs("internal/stats") {
+		pos := p.Fset.Position(fn.Pos()).Filename
+		if strings.HasSuffix(pos, "udist.go") || strings.HasSuffix(pos, "utest.go") {
+			fns = append(fns, fn)
+		}
+	}
+	nMM, nTab := 0, 0
+	for _, fn := range fns {
+		k := 0
+		eachInstr(fn, func(_ *ssa.BasicBlock, in ssa.Instruction) {
+			switch x := in.(type) {
+			case *ssa.Call:
+				bi, ok := x.Call.Value.(*ssa.Builtin)
+				if !ok || (bi.Name() != "min" && bi.Name() != "max") || len(x.Call.Args) < 2 {
+					return
+				}
+				nMM++
+				k++
+				allSame := true
+				for _, a := range x.Call.Args[1:] {
+					if !sameValue(a, x.Call.Args[0]) {
+						allSame = false
+					}
+				}
+				c.Check(!allSame, R, fmt.Sprintf("%s:%s#%d", fnName(fn), bi.Name(), k), p.pos(x.Pos()), "operands differ", bi.Name()+" is taken over one and the same operand: where the two sample sizes are normalised into (smaller, larger) one of them is lost, so for n1 > n2 the distribution is computed for the wrong sizes")
+			case *ssa.BinOp:
+				if x.Op != token.ADD && x.Op != token.MUL {
+					return
+				}
+				if !isInteger(x.Type()) {
+					return
+				}
+				// both operands (or one) loaded from an element of an integer table that this function also writes
+				fromTable := func(v ssa.Value) ssa.Value {
+					ld, ok := v.(*ssa.UnOp)
+					if !ok || ld.Op != token.MUL {
+						return nil
+					}
+					ia, ok := ld.X.(*ssa.IndexAddr)
+					if !ok {
+						return nil
+					}
+					if sl, ok := ia.X.Type().Underlying().(*types.Slice); !ok || !isInteger(sl.Elem()) {
+						return nil
+					}
+					return ia.X
+				}
+				// through a phi that merges a table entry with a constant (l := 0; if ... { l = lp[i] })
+				viaPhi := func(v ssa.Value) ssa.Value {
+					if t := fromTable(v); t != nil {
+						return t
+					}
+					if ph, ok := v.(*ssa.Phi); ok {
+						for _, e := range ph.Edges {
+							if t := fromTable(e); t != nil {
+								return t
+							}
+						}
+					}
+					return nil
+				}
+				// a table made in this function (possibly a row of a table of tables made here)
+				var local func(v ssa.Value, d int) bool
+				local = func(v ssa.Value, d int) bool {
+					if v == nil || d > 6 {
+						return false
+					}
+					switch y := v.(type) {
+					case *ssa.MakeSlice:
+						return true
+					case *ssa.Slice:
+						return local(y.X, d+1)
+					case *ssa.UnOp:
+						if ia, ok := y.X.(*ssa.IndexAddr); ok && y.Op == token.MUL {
+							return local(ia.X, d+1)
+						}
+					case *ssa.Phi:
+						for _, e := range y.Edges {
+							if e != v && local(e, d+1) {
+								return true
+							}
+						}
+					}
+					return false
+				}
+				tx, ty := viaPhi(x.X), viaPhi(x.Y)
+				if !(local(tx, 0) && local(ty, 0)) {
+					return
+				}
+				// is the sum stored back into an integer table element?
+				stored := false
+				for _, r := range *x.Referrers() {
+					if st, ok := r.(*ssa.Store); ok {
+						if ia, ok := st.Addr.(*ssa.IndexAddr); ok {
+							if sl, ok := ia.X.Type().Underlying().(*types.Slice); ok && isInteger(sl.Elem()) {
+								stored = true
+							}
+						}
+					}
+				}
+				if !stored {
+					return
+				}
+				nTab++
+				c.Bad(R, fmt.Sprintf("%s:integer-recurrence#%d", fnName(fn), nTab), p.pos(x.Pos()), "a table of integers is filled by adding or multiplying its own entries: arrangement counts grow like C(n1+n2, n1), which passes 2^64 for two untied samples of about 35 values each — well inside the exact limit — so the counts wrap and p-values near the centre come out wrong by orders of magnitude")
+			}
+		})
+	}
+	c.OK(R, "hygiene:scan", "", fmt.Sprintf("%d functions of the exact test, %d min/max calls, %d integer table recurrences", len(fns), nMM, nTab))
+	c.Floor(R, "functions of the exact test scanned", len(fns), 8)
 }
